@@ -125,6 +125,16 @@ func (s *Sim) runSyncPhase() {
 		}
 		if done {
 			s.stat("sync_committed", 1)
+			switch n := s.step - start; {
+			case n <= 1000:
+				s.stat("sync_events_le_1000", 1)
+			case n <= 4000:
+				s.stat("sync_events_le_4000", 1)
+			case n <= 16000:
+				s.stat("sync_events_le_16000", 1)
+			default:
+				s.stat("sync_events_gt_16000", 1)
+			}
 			s.stat(fmt.Sprintf("sync_periods_%d", st.perMax-st.perBase), 1)
 			s.stat(fmt.Sprintf("sync_distinct_periods_%d", len(st.periods)), 1)
 			s.simTime += s.global
@@ -149,7 +159,10 @@ func (s *Sim) runSyncPhase() {
 			st.perMax = m
 		}
 	}
-	s.harness = "sync phase hit the step cap before the liveness horizon"
+	// 60000 synchronous-phase events (about fifty times what a round needs with correct code; the distribution on
+	// the unchanged tree is in the evidence: sync_events_*) without a commit is a livelock: the bounded-liveness oracle
+	// in steps, next to the ones in periods and in simulated time.
+	s.violate("C05", "no-commit-within-step-budget", "", fmt.Sprintf("round %d not committed by all honest nodes after %d scheduler events since GST (simulated %v, periods elapsed %d)", st.target, syncStepCap, s.global, st.perMax-st.perBase))
 }
 
 // syncStep performs the earliest pending event. Returns false if there is none.
